@@ -465,6 +465,62 @@ theorem loop_stuck_reach (ring : List Sec) (zones : List Nat) (rf : Nat) :
               exact ih _ _ _ hsub' (reach_step hr hrep (by simpa using ht) (by simpa using hs) (by omega))
                 (window_zero hpre') (by omega) h
 
+/-- Where the repaired loop answers `stuck`, the loop as it was never answers: both make the same
+    decisions until the lap check fires, and from that state on every section is refused forever. -/
+theorem unrepaired_hangs_of_stuck (ring : List Sec) (zones : List Nat) (rf : Nat) (hne : ring ≠ []) :
+    ∀ (fuel : Nat) (rest : List Sec) (skipped : Nat) (chosen : List Sec),
+      (∀ s ∈ rest, s ∈ ring) → Window ring zones rest skipped chosen → skipped ≤ ring.length →
+      loop true ring ring.length zones rf fuel rest skipped chosen = .stuck →
+      ∀ (fuel' skipped' : Nat), loop false ring ring.length zones rf fuel' rest skipped' chosen = .fuelOut := by
+  intro fuel
+  induction fuel with
+  | zero => intro rest skipped chosen _ _ _ h; simp [loop] at h
+  | succ fuel ih =>
+    intro rest skipped chosen hsub hw hsk h fuel' skipped'
+    unfold loop at h
+    by_cases h1 : rf ≤ chosen.length
+    · simp [h1] at h
+    · simp only [h1, if_false] at h
+      by_cases h2 : skipped = ring.length
+      · subst h2
+        exact stuck_forever ring ring.length zones rf chosen hne (window_full hw) (by omega) fuel' rest skipped' hsub
+      · have h2' : (true && skipped == ring.length) = false := by simp [h2]
+        simp only [h2', Bool.false_eq_true, if_false] at h
+        cases fuel' with
+        | zero => rfl
+        | succ fuel' =>
+          unfold loop
+          simp only [h1, if_false, Bool.false_and, Bool.false_eq_true]
+          cases hc : cursor ring rest with
+          | none => simp [hc] at h
+          | some p =>
+            obtain ⟨rep, rest'⟩ := p
+            simp only [hc] at h ⊢
+            obtain ⟨hrep, hsub'⟩ := cursor_mem hsub hc
+            have hpre' : ∃ pre, ring = pre ++ rest' := by
+              obtain ⟨pre, hp, _⟩ := hw
+              cases rest with
+              | cons a r =>
+                simp only [cursor, Option.some.injEq, Prod.mk.injEq] at hc
+                obtain ⟨rfl, rfl⟩ := hc
+                exact ⟨pre ++ [a], by simp [hp]⟩
+              | nil =>
+                cases hr' : ring with
+                | nil => simp [cursor, hr'] at hc
+                | cons a r =>
+                  simp only [cursor, hr', Option.some.injEq, Prod.mk.injEq] at hc
+                  obtain ⟨rfl, rfl⟩ := hc
+                  exact ⟨[a], by simp⟩
+            by_cases ht : taken chosen rep.ep = true
+            · simp only [ht, if_true] at h ⊢
+              exact ih _ _ _ hsub' (window_step hw hc (by omega) (Or.inl ht)) (by omega) h fuel' _
+            · simp only [ht] at h ⊢
+              by_cases hs : skipAZ zones chosen rep = true
+              · simp only [hs, if_true] at h ⊢
+                exact ih _ _ _ hsub' (window_step hw hc (by omega) (Or.inr hs)) (by omega) h fuel' _
+              · simp only [hs] at h ⊢
+                exact ih _ _ _ hsub' (window_zero hpre') (by omega) h fuel' _
+
 /-! ### the ring built from an endpoint list -/
 
 theorem mem_sectionsFrom : ∀ {eps : List Ep} {i : Nat} {s : Sec},
